@@ -13,7 +13,7 @@ from lib import core, drv as D, build, clibatch
 WORD_RE = re.compile(r'(?<![A-Za-z0-9])w\d+(?![A-Za-z0-9])')
 ID = 'C13'
 WILD = {0: '.html', 12: '.html', 1: '.html', 2: '.tex', 3: '.tex', 4: '.tex', 5: '.fodt', 6: '.fodt'}
-FMTS = [0, 2, 5, 11]
+FMTS = [0, 2, 5, 11, 3, 4]          # html latex fodt mmd beamer memoir
 
 
 class G:
@@ -132,6 +132,9 @@ def materialise(rng, g, fmt):
         text = (meta + '\n' + body) if meta else body
         if re.match(r'^[A-Za-z0-9][A-Za-z0-9_ \t\-\.]*:', text) and not meta:
             text = 'x ' + text
+        if not meta and rng.random() < 0.15:
+            # a first line with a colon that is *not* metadata (a list item, quote, heading): nothing may be stripped from such a file
+            text = rng.choice(['1. Step: do it\n2. Next: more\n\n', '* Item: text\n\n', '> Quote: text\n\n', '# Head: text\n\n', '- Build: run make\n\n']) + text
         if f['crlf']:
             text = text.replace('\n', '\r\n')
         texts[name] = dict(text=text, meta_len=len(meta.replace('\n', '\r\n') if f['crlf'] else meta), has_meta=bool(meta), base=own_base)
